@@ -34,10 +34,17 @@ func Harness_C12_prune() {
 		{{"1", "x"}, {"3", "z"}},
 		{{"5", "q"}},
 	}
+	pks := [][]uint32{{0}, {0}, {0}}
+	if zzverif.Param("sharedBlock", 0) == 1 {
+		// a fourth table with the rows of the first under another primary key: the block is
+		// the same object (stored once), the block index is not
+		rowsets = append(rowsets, rowsets[0])
+		pks = append(pks, []uint32{1})
+	}
 	var tblSums [][]byte
 	var tbls []*objects.Table
-	for _, rs := range rowsets {
-		s, t := zzrepo.SaveTable(db, []string{"a", "b"}, []uint32{0}, rs, 255)
+	for k, rs := range rowsets {
+		s, t := zzrepo.SaveTable(db, []string{"a", "b"}, pks[k], rs, 255)
 		tblSums = append(tblSums, s)
 		tbls = append(tbls, t)
 	}
@@ -66,6 +73,9 @@ func Harness_C12_prune() {
 				nt = 2
 			}
 			c.table = zzverif.Choose("table", nt)
+			if lite && c.table == 1 && len(tblSums) == 4 {
+				c.table = 3 // the table that shares its block with table 0
+			}
 			tsum = tblSums[c.table]
 		}
 		c.sum, _ = zzrepo.SaveCommit(db, tsum, fmt.Sprintf("c%d", i), int64(1600000000+i), ps...)
